@@ -27,6 +27,12 @@ pub struct RunResult {
     pub repro: Option<Scenario>,
     pub log_digest: String,
     pub harness_error: Option<String>,
+    /// simulated runs inside this process when it batches many small ones (0 = one)
+    #[serde(default)]
+    pub evals: u64,
+    /// additional non-trivial classes reached by a batching process
+    #[serde(default)]
+    pub classes: Vec<String>,
 }
 
 #[derive(Serialize, Deserialize, Clone, Debug)]
@@ -147,6 +153,8 @@ pub fn collect(w: &mut World, scn: &Scenario, prop: &str, t0: u64) -> RunResult 
         violations,
         log_digest: hs.finalize().to_hex()[..16].to_string(),
         harness_error: None,
+        evals: 0,
+        classes: Vec::new(),
     }
 }
 
